@@ -87,7 +87,7 @@ func genC07(r *kernel.Rand) *kernel.Scenario {
 		case k == 5 && nsub > 0 && r.Bool(0.3):
 			// a final update whose acceptance cannot be sent (connection fault), a
 			// second, different final update, then a settlement crediting the first
-			sc.Steps = append(sc.Steps, kernel.St("craft-sub-close-retry", "sub", r.Intn(nsub), "amt", amt, "amt2", amt+3+r.Intn(5), "r", int64(r.Uint64()>>2)))
+			sc.Steps = append(sc.Steps, kernel.St("craft-sub-close-retry", "sub", r.Intn(nsub), "amt", amt, "amt2", amt+3+r.Intn(5), "second_by", r.Intn(2), "r", int64(r.Uint64()>>2)))
 		case k == 5 && nsub > 0:
 			sc.Steps = append(sc.Steps, kernel.St("craft-sub-close", "mut", c07SettleMuts[r.Intn(len(c07SettleMuts))], "sub", r.Intn(nsub), "amt", amt, "r", int64(r.Uint64()>>2)))
 		default:
@@ -209,7 +209,8 @@ func execC07(t *testing.T, sc *kernel.Scenario, trace bool) *kernel.Result {
 				}
 				time.Sleep(50 * time.Millisecond)
 				// 2. a different final update, accepted and delivered
-				o2 := p.pay(i, si.chans[0], 0, st.Int("amt2"), 3*time.Second, true)
+				by := int(st.Int("second_by")) & 1 // 1: the honest side itself proposes the second final state
+				o2 := p.pay(i, si.chans[by], by, st.Int("amt2"), 3*time.Second, true)
 				if o2.class != "ok" {
 					continue
 				}
